@@ -137,6 +137,7 @@ type session struct {
 	inTree      map[string]bool // scope tags of the tree proper (not of the external scopes)
 	treeObj     map[string]bool // object tags of the tree proper
 	treeRefTags []string
+	extNS       []string // tags of the external scopes that themselves wait for a namespace
 }
 
 func newSession(tree *T, ext map[string]*T) *session {
@@ -162,6 +163,16 @@ func newSession(tree *T, ext map[string]*T) *session {
 	for _, x := range st {
 		s.refTags = append(s.refTags, x.ref.Tag)
 		s.sites[x.ref.Tag] = x
+	}
+	for _, name := range sortedKeys(ext) {
+		var es []site
+		refSites(ext[name], nil, "", &es)
+		for _, x := range es {
+			if x.ref.NS != "" {
+				s.extNS = append(s.extNS, ext[name].Tag)
+				break
+			}
+		}
 	}
 	// the external scopes exist before the tree (separately constructed, inner scopes first)
 	for _, name := range sortedKeys(ext) {
@@ -204,6 +215,9 @@ func (s *session) vr() map[string]bool {
 		}
 		out[g] = sc.ValidateReferences() == nil
 	}
+	for _, g := range s.extNS {
+		out[g] = s.w.scopes[g].ValidateReferences() == nil
+	}
 	return out
 }
 
@@ -244,6 +258,13 @@ func (s *session) judgeStep(res *resT, a actT, before, want map[string]string, w
 	vr := s.vr()
 	// the property's own statement on the real values: ValidateReferences() = nil exactly when every
 	// reference below that scope answers ObjectReady()
+	for _, g := range s.refTags {
+		if r, has := s.w.refs[g]; has && (r.ValidateReferences() == nil) != r.ObjectReady() {
+			ok = false
+			res.add(false, map[string]any{"op": "validate_references", "class": fmt.Sprintf("ref_verdict_%v_linked_%v", r.ValidateReferences() == nil, r.ObjectReady())},
+				merge(ctx, map[string]any{"ref": g, "links": got, "act": a}))
+		}
+	}
 	for g, v := range vr {
 		all := true
 		var st []site
@@ -397,6 +418,16 @@ func buildPair(res *resT, tree *T, ext map[string]*T, nstab map[string]string, k
 			return nil, inl
 		}
 	}
+	// the external scopes that wait for a namespace themselves get it too
+	for _, ns := range sortedKeys(nstab) {
+		for _, g := range s.extNS {
+			a := actT{Op: "ns", Scope: g, NS: ns, Table: nstab[ns]}
+			if pi := s.step(a); pi != nil {
+				res.add(false, panicSig(a, pi), map[string]any{"act": a, "panic": pi.Msg, "phase": "pair"})
+				return nil, inl
+			}
+		}
+	}
 	if err := top.ValidateReferences(); err != nil {
 		res.add(false, map[string]any{"op": "validate_references", "class": "verdict_false_expected_true"},
 			map[string]any{"phase": "pair", "error": err.Error()})
@@ -418,6 +449,9 @@ func buildPair(res *resT, tree *T, ext map[string]*T, nstab map[string]string, k
 			}
 			for _, ns := range sortedKeys(nstab) {
 				ws.w.scopes[tw.Tag].ApplyNamespace(ws.extW[nstab[ns]].Objects(), ns)
+				for _, g := range ws.extNS {
+					ws.w.scopes[g].ApplyNamespace(ws.extW[nstab[ns]].Objects(), ns)
+				}
 			}
 		})
 		if pi == nil {
